@@ -131,6 +131,8 @@ def wire_form(prog: Program, cls) -> set[str]:
         val = ("param", "val")
         if r == val:
             forms.add("passthrough")
+        elif r == ("const", None):
+            forms.add("null")
         elif T.is_call_to(r, "builtins.str") and r[2] == (val,):
             forms.add("str")
         elif T.is_call_to(r, f"{C.SERDES}.isoformat") and r[2] == (val,):
